@@ -114,12 +114,15 @@ def shape_indirect_register(reg, code, pos='suffix', offset=None, align=True, en
     return {'kind': 'indirect_register', 'cfg': cfg, 'pos': pos, 'align': align, 'endian': endian, 'insts': insts, 'needs': set()}
 
 
-def shape_indexed(reg, code, idx_width, pos='suffix', align=True, endian=None, indirect=False, idx_code=None, reg_index=None):
-    """reg + <numeric index>  (or reg + <register index> with a composite code)"""
+def shape_indexed(reg, code, idx_width, pos='suffix', align=True, endian=None, indirect=False, idx_code=None, reg_index=None,
+                  decorator=None):
+    """reg + <numeric index>  (or reg + <register index> with a composite code); decorator only for the indirect form"""
     typ = 'indirect_indexed_register' if indirect else 'indexed_register'
 
     def cfg(de):
         c = {'type': typ, 'register': reg, 'bytecode': _codecfg(code, pos), 'index_operands': {}}
+        if decorator is not None:
+            c['decorator'] = {'type': decorator[0], 'is_prefix': decorator[1]}
         if reg_index is None:
             ic = {'type': 'numeric', 'argument': _argcfg(idx_width, align, endian)}
             if idx_code is not None:
@@ -142,6 +145,9 @@ def shape_indexed(reg, code, idx_width, pos='suffix', align=True, endian=None, i
         full_code = ((code[0] << reg_index[2]) | reg_index[1], code[1] + reg_index[2])
         insts.append((fmt.format(reg, reg_index[0]), full_code, None))
         insts.append((fmt2.format(reg, reg_index[0]), full_code, None))
+    if decorator is not None:
+        d = DECORATORS[decorator[0]]
+        insts = [((d + t if decorator[1] else t + d), c, a) for t, c, a in insts]
     return {'kind': typ, 'cfg': cfg, 'pos': pos, 'align': align, 'endian': endian, 'insts': insts, 'needs': set()}
 
 
